@@ -28,7 +28,9 @@ MODES = {
     "listing": ([], ["\tlisting off"], ["\tdb LISTON"], [1], [0]),
     "used": (["SYM\tequ 7"], ["\tdb SYM"], ["\tifused SYM", "\tdb 1", "\telseif", "\tdb 0", "\tendif"], [0], [1]),
     "define": (["#define FOO 1"], ["#undef FOO", "#define FOO 2"], ["\tdb FOO"], [1], [2]),
-    "enumconf": ([], ["\tenumconf 2"], ["\tenum ea{i},eb{i}", "\tdb eb{i}"], [1], [2]),
+    # the probe symbols must not be words of radix-16 digits (ea2, eb2): under `radix 16` such a word is read as a
+    # constant - the known finding C08-radix-letter-leading-constant, judged where it belongs (c08_lit), not here
+    "enumconf": ([], ["\tenumconf 2"], ["\tenum pa{i},pb{i}", "\tdb pb{i}"], [1], [2]),
 }
 SET_BYTES = {"used": [7]}
 QUICK_MODES = ["radix", "outradix", "relaxed", "charset", "used", "define"]
